@@ -1,5 +1,6 @@
 import RV.C07.Lemmas
 import RV.C07.LemmasRead
+import RV.C07.LemmasWs
 /-
   C07 — property statements (each first as `def Statement_… : Prop` at full strength), theorems,
   non-vacuity examples.  "RDF terms obey identity laws: equality, hashing, ordering, pickling, n3 text."
@@ -453,6 +454,27 @@ theorem reduce_rebuild_of_wsIdem (hws : WsIdem) : Statement_reduce_rebuild := by
       rw [this] at h
       exact key none (by simp) h
     · exact key l hl h
+
+theorem ws_idempotent : WsIdem := wsNorm_idem
+
+/-- ⊢ pickling / copying gives back the term, for every term the constructors can build -/
+theorem reduce_rebuild : Statement_reduce_rebuild := reduce_rebuild_of_wsIdem ws_idempotent
+
+/-- every literal that went through `Literal.__new__` meets the white-space rule, so for datatypes
+    other than the recognised ones (no lexical normalisation) reading its n3 text gives it back -/
+theorem constructed_text_stable (E : Ext) (nz : Bool) (x : Str) (l d : Option Str) (t : Term)
+    (h : mkLit E nz x l d = .ok t) : TextStable E false t := by
+  have key : ∀ lang : Option Str, mkLit E nz x lang d = .ok t →
+      ∃ y l', t = .lit (wsNorm d y) d l' := by
+    intro lang h
+    simp only [mkLit] at h
+    repeat' split at h
+    all_goals first
+      | (simp only [Except.ok.injEq] at h; exact ⟨_, _, h.symm⟩)
+      | cases h
+  obtain ⟨y, l', rfl⟩ := key l h
+  simp only [TextStable, Bool.false_eq_true, if_false]
+  exact wsNorm_idem d y
 
 /-- the pre-fix `Literal.__reduce__` rebuilt with the default `normalize=True`: a literal with a lexical form
     that is not the normalised one came back changed (regression witness of C07-F2) -/
